@@ -1423,9 +1423,9 @@ def program_streams(ck, real, drv, rng):
                     "SB2.1 file -> decoded by C04's compiled boot ROM model (drv_c04 rom21) -> section ids, header options and the command list "
                     "must be what the BD program states (reference = Spec.cmdOf mirrored in ROM notation); non-trivial = exported")
     rom = ck.driver("drv_c04")
-    e2e_budget = ck.budget(80, 2500)
+    e2e_budget = ck.budget(80, 1500)
     real.kek_hex = Path(real.kek).read_text().strip()
-    n = ck.budget(1000, 20000)
+    n = ck.budget(1000, 17000)
     for it in range(n):
         unsup = rng.random() < 0.12
         prog = gen_program(rng, real, drv, unsup)
